@@ -481,6 +481,14 @@ def run_contexts(tier, seed, fails, tags):
                                             f"`{' '.join(body[tgt][max(0, k - 6):k + 6])}` vs cpu `{' '.join(body['cpu'][max(0, k - 6):k + 6])}`", ctx))
             if any(ph in rec[tgt] for ph in PLACEHOLDERS):
                 fails.append(common.Failure("oracle", "C15:placeholder-left", f"placeholder left in the {tgt} context's program text ({rec['type'][:120]})", ctx))
+        # every pointer type spelled out in the text the OpenCL context hands over carries __global - also when the cpu context
+        # generated code for the same classes earlier in the process
+        o = rec["opencl"].split(mark, 1)[1]
+        for m in re.finditer(r"(__global\s+)?(const\s+)?\b(char|int64_t|double|float|u?int(?:8|16|32|64)_t|void)\s*\*", o):
+            if not m.group(1):
+                fails.append(common.Failure("oracle", "C15:pointer-without-global", f"{rec['type'][:120]}: the OpenCL context's program text has "
+                                            f"`{m.group(0)}` without __global near {o[max(0, m.start() - 40): m.end() + 10]!r}", ctx))
+                break
     return len(recs)
 
 
